@@ -660,29 +660,9 @@ pub fn valid_kinds() -> &'static (Vec<&'static str>, Vec<String>) {
     })
 }
 
-/// One W2 scenario: a program and the configuration to compile it under
-pub fn scenario(rng: &mut Rng, i: u64) -> (String, FsSpec, TaskSpec) {
-    let (kinds, _) = valid_kinds();
-    let target = [Target::Dx, Target::Vk, Target::Msl, Target::Msl][(i % 4) as usize];
-    let usable: Vec<&str> = kinds
-        .iter()
-        .copied()
-        .filter(|k| *k != "bind_groups" || target == Target::Vk)
-        .collect();
-    let src = if usable.is_empty() {
-        "void CS0() {}\nPipeline P0 { ComputeShader = CS0; }\n".to_string()
-    } else {
-        let n = rng.range(2, 6) as usize;
-        let mut chosen: Vec<&str> = (0..n).map(|_| pick(rng, &usable)).collect();
-        if target == Target::Vk && usable.contains(&"bind_groups") && !chosen.contains(&"bind_groups") {
-            chosen.push("bind_groups");
-        }
-        program(&chosen, &mut rng.sub("program"))
-    };
-    // A quarter of the programs are rejected ones: a semantic error is appended whose diagnostic
-    // could mention (or choose among) several declarations
-    let src = if rng.chance(1, 4) {
-        let tail = [
+/// Program tails: mostly rejected constructs whose diagnostic could mention (or choose among)
+/// several declarations, name clashes between kinds of symbols, pipeline properties, stage linking
+pub const TAILS: &[&str] = &[
             "int ovl_err(int x) { return 0; }\nint ovl_err(float x) { return 1; }\nint ovl_err(uint x) { return 2; }\nstatic int ovl_use = ovl_err(1);\n",
             "void unknown_use() { int local_q = 1; local_q = not_declared_anywhere + local_q; }\n",
             "static int dup_global;\nstatic float dup_global;\n",
@@ -714,7 +694,39 @@ pub fn scenario(rng: &mut Rng, i: u64) -> (String, FsSpec, TaskSpec) {
             "static int step;\nstatic int uses_step = step;\n",
             "void fn_then_global() {}\nstatic int fn_then_global;\nstatic int uses_ftg = fn_then_global;\n",
             "[[rssl::bindless]] cbuffer BindlessCB { float bcb_a; }\n",
-        ][rng.below(29) as usize];
+            // a struct template with several instantiations (both exporters stop at the template
+            // today - a known finding - so this tail is valid input whose export is unfinished)
+            "template<typename T>\nstruct TplPair { T first; T second; T sum() { return first + second; } };\nvoid tpl_use() { TplPair<float> pf; TplPair<int> pi; TplPair<uint> pu; TplPair<float2> pf2; pf.first = 1; pi.first = 2; pu.first = 3; pf2.first = float2(4, 5); }\n",
+            // stage linking (Metal links the stages of a graphics pipeline by user semantics)
+            "void li_vs(uint vid : SV_VertexID, out float4 o_pos : SV_Position, out float2 o_uv : TEXCOORD, out float3 o_nrm : NORMAL, out float4 o_tan : TANGENT, out float o_wet : WETNESS) { o_pos = float4(0, 0, 0, 1); o_uv = float2(0, 0); o_nrm = float3(0, 0, 1); o_tan = float4(1, 0, 0, 1); o_wet = 0; }\nfloat4 li_ps(float4 i_col : COLOUR) : SV_Target0 { return i_col; }\nPipeline LinkMissing { VertexShader = li_vs; PixelShader = li_ps; }\n",
+            "void lo_vs(uint vid : SV_VertexID, out float4 o_pos : SV_Position, out float2 o_uv : TEXCOORD, out float3 o_nrm : NORMAL, out float4 o_tan : TANGENT) { o_pos = float4(0, 0, 0, 1); o_uv = float2(0, 0); o_nrm = float3(0, 0, 1); o_tan = float4(1, 0, 0, 1); }\nfloat4 lo_ps(float3 i_nrm : NORMAL, float2 i_uv : TEXCOORD) : SV_Target0 { return float4(i_nrm, i_uv.x); }\nPipeline LinkSubset { VertexShader = lo_vs; PixelShader = lo_ps; }\n",
+];
+
+/// One W2 scenario: a program and the configuration to compile it under
+pub fn scenario(rng: &mut Rng, i: u64) -> (String, FsSpec, TaskSpec) {
+    let (kinds, _) = valid_kinds();
+    let target = [Target::Dx, Target::Vk, Target::Msl, Target::Msl][(i % 4) as usize];
+    let usable: Vec<&str> = kinds
+        .iter()
+        .copied()
+        .filter(|k| *k != "bind_groups" || target == Target::Vk)
+        .collect();
+    let src = if usable.is_empty() {
+        "void CS0() {}\nPipeline P0 { ComputeShader = CS0; }\n".to_string()
+    } else {
+        let n = rng.range(2, 6) as usize;
+        let mut chosen: Vec<&str> = (0..n).map(|_| pick(rng, &usable)).collect();
+        if target == Target::Vk && usable.contains(&"bind_groups") && !chosen.contains(&"bind_groups") {
+            chosen.push("bind_groups");
+        }
+        program(&chosen, &mut rng.sub("program"))
+    };
+    // A fifth of the programs get a tail: mostly a semantic error whose diagnostic could mention
+    // (or choose among) several declarations. The tails take turns (program 4, 9, 14, ...), so
+    // that each of them meets every target however many there are.
+    let src = if i % 5 == 4 {
+        let tails = TAILS;
+        let tail = tails[(i / 5) as usize % tails.len()];
         format!("{src}{tail}")
     } else {
         src
@@ -731,5 +743,23 @@ pub fn scenario(rng: &mut Rng, i: u64) -> (String, FsSpec, TaskSpec) {
         format!("W2:program#{i}@{}", target.name()),
         crate::plan::snippet_fs(&src),
         t,
+    )
+}
+
+/// Tail `k` alone (with a minimal compute pipeline in front so that pipeline mode has something to
+/// build), under target `t`: every tail meets every target whatever else the programs contain
+pub fn tail_scenario(k: usize, t: usize) -> (String, FsSpec, TaskSpec) {
+    let target = [Target::Dx, Target::Vk, Target::Msl][t % 3];
+    let src = format!(
+        "void tail_cs() {{}}\nPipeline TailP {{ ComputeShader = tail_cs; }}\n{}",
+        TAILS[k % TAILS.len()]
+    );
+    let mut task = TaskSpec::compile(0, "test.rssl", target);
+    task.buffer_address = target == Target::Vk;
+    task.validate_layout = k % 2 == 0;
+    (
+        format!("W2:tail#{}@{}", k % TAILS.len(), target.name()),
+        crate::plan::snippet_fs(&src),
+        task,
     )
 }
